@@ -536,7 +536,7 @@ inductive Out where
   | failed (e : Err)
   | extOk (tid : Tid)
   | peeked (r : Option Rec)
-deriving Repr, Inhabited
+deriving DecidableEq, Repr, Inhabited
 
 /-- `transaction._cleanup`: `abort` for managers that have not voted, then `tpc_abort` for all -/
 def cleanup (voted : Bool) (s : State) : State :=
